@@ -87,6 +87,21 @@ func xScenarios() []xScenario {
 			o.Fields["@GetOneofConfig"] = oneofConfig("kind", true)
 			return m, []string{"id", "kind", "body", "url", "sourceKind", "user", "botAgent"}
 		}, "_oneof_discriminator.pb.go"},
+		{"flattened discriminated oneof beside a proto3 optional field and an un-annotated oneof", func() (*VStruct, []string) {
+			a := fld("text", "message").msg(cMessage("TextContent", fld("body", "string")))
+			b := fld("image_ref", "message").msg(cMessage("ImageContent", fld("url", "string")))
+			note := fld("note", "string")
+			note.Opt = true
+			u := fld("user_id", "string")
+			d := fld("device_id", "string")
+			m := cMessage("Event", fld("id", "string"), a, b, note, u, d)
+			o := cOneof(m, "content", a, b)
+			o.Fields["@GetOneofConfig"] = oneofConfig("kind", true)
+			syn := cOneof(m, "_note", note)
+			syn.Fields["Desc"].(*VStruct).Fields["IsSynthetic()"] = VBool{B: true}
+			cOneof(m, "actor", u, d)
+			return m, []string{"id", "kind", "body", "url", "note", "userId", "deviceId"}
+		}, "_oneof_discriminator.pb.go"},
 	}
 }
 
